@@ -51,6 +51,11 @@ class FakeProcess:
         self.thread = None
         self.w = None
         sched.created.append(self)
+        # the rest of the multiprocessing.Process surface a parent may reasonably touch
+        FakeProcess._count = getattr(FakeProcess, "_count", 0) + 1
+        self.name = f"Process-{FakeProcess._count}"
+        self.pid = 40000 + FakeProcess._count
+        self.daemon = False
 
     # ---- called from the worker thread
     def _run(self):
@@ -97,6 +102,14 @@ class FakeProcess:
 
     def join(self, timeout=None):
         return self.sched.parent_call("join", self)
+
+    def close(self):
+        pass
+
+    def terminate(self):
+        self.sched.parent_call("terminate", self)
+
+    kill = terminate
 
 
 class FakeQueue:
@@ -684,6 +697,11 @@ def run_schedule(argv, cap, C, labels, max_idle_calls=400):
                 s.reply(None)
             elif k == "write":
                 s.written.append(obj)
+                s.reply(None)
+            elif k == "terminate":
+                if s.alive(obj):
+                    s.do("WKill", obj.w)
+                    s.faults -= 1          # the parent's own doing, not an injected fault
                 s.reply(None)
             else:
                 s.reply(None)
